@@ -751,7 +751,12 @@ def run(run: Run) -> int:
     except translate.Unreadable as e:
         run.proof_broken.append("translator: %s" % e)
         return run.finish(RULE)
-    touch_public(pt)
+    try:
+        touch_public(pt)
+    except Exception as e:  # noqa
+        run.violation("an ancillary loader raises on the embedded tables: %s: %s" % (type(e).__name__, e),
+                      dict(kind="init", table="public"), observable="init")
+        return run.finish(RULE)
     rep = run_driver("loader", anc_lines(src) + ["anc_selfcheck"])
     if not rep or not rep[0].startswith("ok"):
         run.disagree("translator-vs-model-parse", dict(kind="selfcheck"), rep[:1], "generated rows")
